@@ -57,6 +57,13 @@ def run(ctx):
             for entry in ("universal", "legacynlp", "cached"):
                 ties.append(dict(entry=entry, limit=lim, nlp=True, fuzzy=False, thr=0, ponly=False, pboost=False,
                                  allplat=True, plats=[], nocross=False, boost=False, query="lex", corpus=corpus, prime="limit1"))
+    # boost tables whose keys differ only in letter case or surrounding blanks
+    for corpus in ("mix", "tie"):
+        for entry in ("universal", "cached"):
+            for nlp in (False, True):
+                for lim in (3, 10):
+                    ties.append(dict(entry=entry, limit=lim, nlp=nlp, fuzzy=False, thr=0, ponly=False, pboost=False, allplat=True, plats=[],
+                                     nocross=False, boost=True, boostvar=8, query="lex", corpus=corpus))
     shipped = shipped_scenarios(rnd, 40 if q else 400)
     tr, info, ok, rej = engine.run_cases(ctx, base + ties + shipped, ["C02"], reps=6 if q else 25)
     for x in rej:
